@@ -185,6 +185,7 @@ func init() {
 		{Name: "go-native", Harness: "confgo", Instrument: false, Shards: 1, Args: "mode=native", Timeout: 10 * time.Minute},
 		{Name: "go-model", Harness: "confgo", Instrument: true, Shards: 1, GoMaxProcs: 1, Args: "mode=model", Timeout: 20 * time.Minute},
 		{Name: "quic-native", Harness: "confquic", Instrument: false, Shards: 1, Args: "mode=native", Timeout: 10 * time.Minute},
+		{Name: "race-pass", Harness: "racepass", Instrument: false, Race: true, Shards: 1, Timeout: 30 * time.Minute},
 		{Name: "ws-native", Harness: "confws", Instrument: false, Shards: 1, Args: "mode=native", Timeout: 10 * time.Minute},
 		{Name: "ws-model", Harness: "confws", Instrument: true, ImportMap: wsMap, HTTPSeams: true, Shards: 1, GoMaxProcs: 1, Args: "mode=model", Timeout: 20 * time.Minute},
 		{Name: "quic-model", Harness: "confquic", Instrument: true, ImportMap: quicMap, Shards: 1, GoMaxProcs: 1, Args: "mode=model", Timeout: 20 * time.Minute},
